@@ -170,7 +170,9 @@ def run(ctx, crate):
             if gs and ga and len(gs) == 1 and len(ga) == 1:
                 extra = sorted(set(gs[0]) - set(ga[0]))
             c5 = extra == ["gt(len(%s), 0)" % show(an.result)] or extra == []
-            loops_ok = len(b.loops_of(an.bb)) == 2 and b.loops_of((via_list or s).bb) == b.loops_of(an.bb) and (via_list is None or len(b.loops_of(s.bb)) == 2)
+            wl = S.work_list_of_block(b, s.bb)  # (the recording may run over a queue of the per-pattern results: it then stands in the loop that filled the queue)
+            eff_bb = wl[0] if len(wl) == 1 and via_list is None else (via_list or s).bb
+            loops_ok = len(b.loops_of(an.bb)) == 2 and b.loops_of(eff_bb) == b.loops_of(an.bb) and ((via_list is None and not wl) or len(b.loops_of(s.bb)) == 2)
             obs.append(Ob("R03.perfile", w.path, "per-file result pushed under its own pattern with the file's name",
                           bool(c1 and c2 and c3 and c4 and c5 and loops_ok), site=s.where,
                           expected="for p in patterns: lines = analyze(content(file), _, p); if non-empty: entry(p).or_insert([]).push((name(file), lines))",
@@ -179,7 +181,7 @@ def run(ctx, crate):
             shape.append("perfile")
         import order as O
         early = []
-        for lp in O.loops_of_body(b):
+        for lp in dirwalk.relevant_loops(w):
             normal, extra = lp.exits()
             early += [b.blocks[x]["tloc"]["line"] for (x, t) in extra]
         obs.append(Ob("R03.loops", w.path, "every directory entry, pattern and nested result is processed (loops run to exhaustion)", not early,
